@@ -8,3 +8,7 @@ package drpcdebug
 // Point marks a named program point for external checkers. Without the verif
 // build tag it does nothing and is inlined away.
 func Point(name string) {}
+
+// Event reports a named protocol event for external checkers. Without the verif
+// build tag it does nothing and is inlined away.
+func Event(obj interface{}, name string, id uint64) {}
